@@ -84,20 +84,28 @@ func peFields(img []byte) ([]field, []int) {
 		fs = append(fs, field{"Section.VirtualSize", h + 8, 4}, field{"Section.SizeOfRawData", h + 16, 4}, field{"Section.PointerToRawData", h + 20, 4}, field{"Section.Name", h, 1})
 		cuts = append(cuts, h, h+20, h+40, int(s.Ptr), int(s.Ptr)+int(s.Size))
 	}
-	if l.CertSize != 0 && int(l.CertVA)+8 <= len(img) {
+	// (all comparisons of header values are done in 64 bits: int is 32 bits wide in the GOARCH=386 shards)
+	if l.CertSize != 0 && uint64(l.CertVA)+8 <= uint64(len(img)) {
 		off := int(l.CertVA)
 		for off+8 <= len(img) {
 			fs = append(fs, field{"WIN_CERTIFICATE.dwLength", off, 4}, field{"WIN_CERTIFICATE.wRevision", off + 4, 2}, field{"WIN_CERTIFICATE.wCertificateType", off + 6, 2})
 			cuts = append(cuts, off, off+4, off+8, off+9)
-			n := int(binary.LittleEndian.Uint32(img[off:]))
-			if n < 8 || n > len(img) {
+			n64 := uint64(binary.LittleEndian.Uint32(img[off:]))
+			if n64 < 8 || n64 > uint64(len(img)) {
 				break
 			}
+			n := int(n64)
 			off += (n + 7) &^ 7
 		}
 		cuts = append(cuts, int(l.CertVA), int(l.CertVA)+8)
 	}
-	return fs, cuts
+	var inside []int
+	for _, c := range cuts {
+		if c >= 0 && c <= len(img) {
+			inside = append(inside, c)
+		}
+	}
+	return fs, inside
 }
 
 // HostilePE derives a hostile input from a valid image: named header fields set
